@@ -34,11 +34,11 @@ func glob(dir string, g string) ([]string, error) {
 	results := make(map[string]bool, len(fs))
 
 	for _, f := range fs {
+		// A field that cannot be stat'ed (a pattern without match stays as it is
+		// written, one alternative of `{a,b}.txt` may be missing, a link may
+		// dangle) is no match; it does not take the other matches with it.
 		info, err := os.Stat(f)
-		if err != nil {
-			return nil, err
-		}
-		if info.IsDir() {
+		if err != nil || info.IsDir() {
 			continue
 		}
 		results[f] = true
